@@ -22,8 +22,9 @@ EXPLANATION = (
     "calling read() and after the same header stores as the GET path; (4) parse_range_header: a result is "
     "returned only for units == 'bytes', the split and every parse_range call are inside the try whose "
     "ValueError handler returns None, every raise in parse_range is caught by it; (5) parse_range returns "
-    "(filesize-int(n), filesize-1) for '-n', (int(a), filesize-1) for 'a-', (int(a), int(b)) for 'a-b' and only "
-    "when first <= last; (6) render_HEAD and render_GET both answer through FileDownloader on the best readable "
+    "(filesize-int(n), filesize-1) for '-n' and only on a path that refused a signed n (int() accepts '-5'; decided by "
+    "evaluating the path's integer tests at n = -1), (int(a), filesize-1) for 'a-', (int(a), int(b)) for 'a-b' and only "
+    "when int(a) <= int(b) - first <= last is demanded of an explicit last-byte-pos only; (6) render_HEAD and render_GET both answer through FileDownloader on the best readable "
     "version (the very Deferred the FileDownloader callback was added to is what is returned); (7) parse_range_header "
     "is applied to req.getHeader('range') and a response completes unparsed only on a path that established the "
     "header absent/empty; the 416 is the argument bound to the WebError parameter stored in self.code; (8) a GET "
@@ -49,8 +50,18 @@ EXPLANATION = (
     "block counter offset // 16 (the default IV only on a path that established offset // 16 == 0) and offset % 16 "
     "keystream bytes are consumed from it (none only on a path that established offset % 16 == 0), no other method "
     "re-binds it, and ImmutableFileNode.read gives its offset both to the DecryptingConsumer and to the ciphertext "
-    "read.  Undecided: leniency of int() on "
-    "odd numerals, empty-file suffix ranges, the rest of the byte content delivered by filenode.read() for immutable "
+    "read; (15) invalid versus unsatisfiable: every pair of a refusing path (explicit raise / None result) and an "
+    "accepting path of parse_range and of parse_range_header is compared; the test at which they part decides the "
+    "refusal, and it must be a fact about the header text: with locals replaced by their definitions along the path "
+    "and free variables followed through the reaching definitions of the enclosing function (self.x through the "
+    "class's stores), no operand derived from filenode.get_size() may survive in its polynomial normal form "
+    "(otherwise 'N-' with N >= size is 'unparseable' and gets 200 instead of 416), and an integer test must not "
+    "refuse the spec whose numbers are all 0 ('-0', '0-', '0-0' are valid; '-0' is unsatisfiable, i.e. 416).  "
+    "Undecided: leniency of int() on "
+    "odd numerals other than a signed suffix-length ('+5', blanks, '1_0'), the answer to a non-zero suffix range of an "
+    "empty file (206 with 'bytes 0--1/0'; RFC 7233 has no valid answer), a refusal decided inside a helper that is "
+    "handed a size-derived value (reported as undecidable) or by an exception of a callee other than the explicit "
+    "raise, the rest of the byte content delivered by filenode.read() for immutable "
     "and literal files (size forwarding, segment slicing and the per-chunk decryption in DecryptingConsumer.write are "
     "rules of C04/C01), zfec/AES of the mutable path, multipart "
     "responses (first range only, as the code documents), a byte-range-set split at another separator or with a "
@@ -611,8 +622,8 @@ def run(ctx: Context):
 
     # ---------------------------------------------------------------- C40.5
     with ctx.rule("C40.5", "E2", "parse_range: '-n' -> (filesize-int(n), filesize-1); 'a-' -> (int(a), filesize-1); "
-                  "'a-b' -> (int(a), int(b)); a pair is returned only when first <= last; every raise is a "
-                  "ValueError", expected=3) as r:
+                  "'a-b' -> (int(a), int(b)) and only when int(a) <= int(b); '-n' only when a signed n was refused; "
+                  "every raise is a ValueError", expected=3) as r:
         pr = prh.nested.get("parse_range")
         if pr is None:
             raise AnchorVanished("parse_range_header.parse_range")
@@ -670,9 +681,38 @@ def run(ctx: Context):
             if nz(A) != nz(wa) or nz(B) != nz(wb):
                 r.violation(pr, pr.loc(node.ast), "%s byte-range-spec yields (%s, %s); RFC 7233 requires (%s, %s)" % (
                     cls, nz(A), nz(B), nz(wa), nz(wb)))
-            if _cmp_of("A <= B", A=A, B=B) not in facts and _cmp_of("A < B + 1", A=A, B=B) not in facts:
+            ordered = _cmp_of("A <= B", A=A, B=B) in facts or _cmp_of("A < B + 1", A=A, B=B) in facts
+            # Only an explicit last-byte-pos can make the spec invalid (RFC 7233 2.1).  For '-n' and 'a-' the last
+            # position is computed from the file size: demanding first <= last there would demand the very defect
+            # rule C40.15 reports (an unsatisfiable range turned into an unparseable one).
+            if cls == "closed" and not ordered:
                 r.violation(pr, pr.loc(node.ast), "a %s range is returned without having established first <= last "
                             "(an inverted range must invalidate the header)" % cls)
+            if cls == "suffix":
+                # int() accepts a sign: '--5' would become the range (filesize+5, filesize-1) and be answered 416
+                # instead of being ignored.  Some test on this path must go the other way for a suffix-length of -1
+                # (whatever the file size), or look at the digits themselves.
+                digits = {_cmp_of(t, B=RL) for t in ("B.isdigit()", "B.isdecimal()", "not B.startswith('-')",
+                                                     "'-' not in B", "B[0] != '-'", "B[:1] != '-'")}
+                refused, opaque = bool(facts & digits), []
+                for (n, lab, env) in p.steps:
+                    if refused or n.kind != "test" or not isinstance(lab, tuple):
+                        continue
+                    t = _sub(env, n.ast)
+                    try:
+                        vals = {bool(_ieval(_at_point(pr, t, -1, k))) for k in _SIZES}
+                    except _NoEval:
+                        if nz(RL) in nz(t):
+                            opaque.append(n)
+                        continue
+                    refused = (lab[0] == "T") not in vals
+                if not refused and opaque:
+                    raise AnalysisError("C40.5: cannot decide whether the tests on the suffix-length (%s) refuse a "
+                                        "signed number" % ", ".join(src(pr, n.ast) for n in opaque))
+                if not refused:
+                    r.violation(pr, pr.loc(node.ast), "a suffix range is returned without having refused a signed "
+                                "suffix-length: int() accepts '-5', so the garbage header 'bytes=--5' becomes the range "
+                                "(filesize+5, filesize-1) and is answered 416 instead of being ignored")
         for cls, node in seen_cls.items():
             r.site(pr, node.ast, cls)
 
@@ -985,6 +1025,13 @@ def run(ctx: Context):
                   "16 == 0 was established); ImmutableFileNode.read gives that same offset to the ciphertext read",
                   expected=3) as r:
         _decryptor_positioned(r, idx)
+
+    # ---------------------------------------------------------------- C40.15
+    with ctx.rule("C40.15", "E2/R1", "parse_range_header / parse_range: whether a byte-range-spec is refused (ValueError / "
+                  "the None that makes render ignore the header) is decided by the header text alone - no test that "
+                  "separates a refusing path from an accepting one may involve a value derived from the file size, so that "
+                  "a valid but unsatisfiable spec ('N-' with N >= size, '-0') reaches render's 416 test", expected=3) as r:
+        _refusal_is_about_the_text(r, prh)
 
 
 # ------------------------------------------------------------------ C40.10
@@ -1834,3 +1881,287 @@ def _decryptor_positioned(r, idx):
                 if "self._decryptor" in node_stores(n):
                     r.violation(f, f.loc(n.ast), "%s re-binds the decryptor: the keystream position of the read is lost"
                                 % short(f))
+
+
+# ------------------------------------------------------------------ C40.15
+_SIZE_CALLS = ("get_size", "get_current_size")
+_SIZE_MEMO = {}
+
+
+def _chain(fn):
+    out = []
+    while fn is not None:
+        out.append(fn)
+        fn = fn.parent
+    return out
+
+
+def _name_size_derived(fn, name):
+    """Why the name / attribute path `name` of fn may carry a value computed from the size of the file being served
+    (followed through the reaching definitions of fn and of the enclosing functions, `self.x` through the stores of
+    the class's methods), or None."""
+    key = (fn.qual, name)
+    if key in _SIZE_MEMO:
+        return _SIZE_MEMO[key]
+    fns = _chain(fn)
+    ci = fns[-1].cls
+    seen = set()
+    work = [name]
+    res = None
+    while work and res is None:
+        nm = work.pop()
+        if nm in seen or not nm:
+            continue
+        seen.add(nm)
+        if any(part in _SIZE_CALLS for part in nm.split(".")):
+            res = nm
+            break
+        try:
+            probe = parse_expr(nm)
+        except SyntaxError:
+            continue
+        for f in fns:
+            for d in depends_on(f, probe):
+                if d not in seen:
+                    work.append(d)
+        if nm.startswith("self.") and nm.count(".") == 1 and ci is not None:
+            for m in ci.methods.values():
+                for v in def_exprs(m).get(nm, []):
+                    if any(isinstance(x, ast.Attribute) and x.attr in _SIZE_CALLS for x in ast.walk(v)):
+                        res = "%s = %s in %s" % (nm, ast.unparse(v), m.name)
+    _SIZE_MEMO[key] = res
+    return res
+
+
+def _size_derived(fn, e):
+    """Why the value of `e` (an expression of fn, locals already replaced along a path) may depend on the file size."""
+    for x in ast.walk(e):
+        if isinstance(x, ast.Attribute) and x.attr in _SIZE_CALLS:
+            return attr_path(x) or x.attr
+    for l in sorted(leaves(e)):
+        why = _name_size_derived(fn, l.split("@")[0])
+        if why:
+            return l if why == l else "%s <- %s" % (l, why)
+    return None
+
+
+class _NoEval(Exception):
+    pass
+
+
+def _ieval(e):
+    """Value of an integer / boolean expression over constants; _NoEval for anything else."""
+    if isinstance(e, ast.Constant) and isinstance(e.value, (int, bool)):
+        return e.value
+    if isinstance(e, ast.UnaryOp):
+        v = _ieval(e.operand)
+        if isinstance(e.op, ast.USub):
+            return -v
+        if isinstance(e.op, ast.UAdd):
+            return +v
+        if isinstance(e.op, ast.Not):
+            return not v
+    if isinstance(e, ast.BinOp):
+        a, b = _ieval(e.left), _ieval(e.right)
+        if isinstance(e.op, ast.Add):
+            return a + b
+        if isinstance(e.op, ast.Sub):
+            return a - b
+        if isinstance(e.op, ast.Mult):
+            return a * b
+        if isinstance(e.op, (ast.FloorDiv, ast.Mod)) and b:
+            return a // b if isinstance(e.op, ast.FloorDiv) else a % b
+    if isinstance(e, ast.Compare):
+        vals = [_ieval(e.left)] + [_ieval(c) for c in e.comparators]
+        ok = True
+        for op, a, b in zip(e.ops, vals, vals[1:]):
+            if isinstance(op, ast.Lt):
+                ok = ok and a < b
+            elif isinstance(op, ast.LtE):
+                ok = ok and a <= b
+            elif isinstance(op, ast.Gt):
+                ok = ok and a > b
+            elif isinstance(op, ast.GtE):
+                ok = ok and a >= b
+            elif isinstance(op, ast.Eq):
+                ok = ok and a == b
+            elif isinstance(op, ast.NotEq):
+                ok = ok and a != b
+            else:
+                raise _NoEval()
+        return ok
+    if isinstance(e, ast.Call) and isinstance(e.func, ast.Name) and e.func.id in ("min", "max", "abs", "int", "bool") \
+            and e.args and not e.keywords:
+        vs = [_ieval(a) for a in e.args]
+        return {"min": min, "max": max, "abs": abs, "int": int, "bool": bool}[e.func.id](*vs)
+    raise _NoEval()
+
+
+def _at_point(fn, t, num, size):
+    """`t` with every number read from the header text - int(<text>) - replaced by `num` and every size-derived name /
+    get_size() call by `size`."""
+    class Z(ast.NodeTransformer):
+        def visit_Call(self, node):
+            if call_tail(node) in _SIZE_CALLS:
+                return ast.Constant(value=size)
+            if isinstance(node.func, ast.Name) and node.func.id == "int" and node.args and not node.keywords \
+                    and not _size_derived(fn, node):
+                return ast.Constant(value=num)
+            return self.generic_visit(node)
+
+        def visit_Name(self, node):
+            if _name_size_derived(fn, node.id.split("@")[0]):
+                return ast.Constant(value=size)
+            return node
+
+        def visit_Attribute(self, node):
+            p = attr_path(node)
+            if p and _name_size_derived(fn, p):
+                return ast.Constant(value=size)
+            return self.generic_visit(node)
+
+        def visit_Lambda(self, node):
+            return node
+    return Z().visit(copy.deepcopy(t))
+
+
+_SIZES = (0, 1, 2, 7, 300)
+
+
+def _refusal_is_about_the_text(r, prh):
+    pr = prh.nested.get("parse_range")
+    if pr is None:
+        raise AnchorVanished("parse_range_header.parse_range")
+
+    def is_none(v):
+        return v is None or (isinstance(v, ast.Constant) and v.value is None)
+
+    def outcome(fn, p):
+        """'refuse' / 'accept' / None, and the statement that ends the path."""
+        last = p.steps[-1][0] if p.steps else None
+        if last is None:
+            return None, None
+        if p.end == "raise":
+            # an explicit raise only: a failing assert is an internal error, not an ignored header
+            if last.kind == "stmt" and isinstance(last.ast, ast.Raise):
+                return "refuse", last
+            return None, last
+        rets = [n for (n, lab, _e) in p.steps if n.kind == "stmt" and isinstance(n.ast, ast.Return) and lab != "exc"]
+        if not rets:
+            return "refuse", last            # falls off the end: None
+        return ("refuse" if is_none(rets[-1].ast.value) else "accept"), rets[-1]
+
+    def tests(fn, p):
+        out = {}
+        for i, (n, lab, env) in enumerate(p.steps):
+            if n.kind == "test" and isinstance(lab, tuple):
+                t = _sub(env, n.ast)
+                fact = _NORM.cmp(t, lab[0] == "T")
+                # the size counts only where it survives normalisation (filesize - 1 < filesize - n is about n)
+                why = None
+                if _size_derived(fn, t):
+                    for side in fact[1:]:
+                        try:
+                            why = why or _size_derived(fn, parse_expr(side))
+                        except (SyntaxError, TypeError, ValueError):
+                            why = why or _size_derived(fn, t)
+                out[i] = (t, fact, why)
+        return out
+
+    def lab_key(lab):
+        return lab[0] if isinstance(lab, tuple) else lab
+
+    def diverge(p, q):
+        for i, (a, b) in enumerate(zip(p.steps, q.steps)):
+            if a[0].id != b[0].id:
+                return None
+            if lab_key(a[1]) != lab_key(b[1]):
+                return i
+        return None
+
+    def operands(fn, t):
+        sides = [t.left, t.comparators[0]] if isinstance(t, ast.Compare) and len(t.ops) == 1 else [t]
+        out = []
+        for x in sides:
+            why = _size_derived(fn, x)
+            if why:
+                out.append("%s is computed from the file size (%s)" % (nz(x), why))
+        return "; ".join(out)
+
+    reported = set()
+    for fn, what in ((pr, "byte-range-spec"), (prh, "Range header")):
+        paths = sym_paths(fn)
+        cls = [(p,) + outcome(fn, p) for p in paths]
+        refuse = [(p, n) for (p, o, n) in cls if o == "refuse"]
+        accept = [(p, n) for (p, o, n) in cls if o == "accept"]
+        if not accept:
+            raise AnchorVanished("%s has no path that returns a result" % fn.qual)
+        if not refuse:
+            raise AnchorVanished("%s has no path that refuses a %s" % (fn.qual, what))
+        for n in {n.id: n for (_p, n) in accept}.values():
+            r.site(fn, n.ast, "accepts")
+        for n in {n.id: n for (_p, n) in refuse}.values():
+            r.site(fn, n.ast, "refuses")
+        tcache = {id(p): tests(fn, p) for (p, _n) in refuse + accept}
+        r.count(len(refuse) * len(accept))
+        for (p, pn) in refuse:
+            tp = tcache[id(p)]
+            for (q, qn) in accept:
+                i = diverge(p, q)
+                if i is None or i not in tp:
+                    continue            # they part at an exception edge / loop head: decided inside the callee
+                (t, fact, why) = tp[i]
+                node, pol = p.steps[i][0], p.steps[i][1][0] == "T"
+                key = (fn.qual, node.id, nz(t))
+                if key in reported:
+                    continue
+                w = ["L%d%s %r" % (n.lineno, (" [%s]" % lab[0]) if isinstance(lab, tuple) else "", n)
+                     for (n, lab, _e) in p.steps if n.kind not in ("entry",)]
+                if why:
+                    tq = tcache[id(q)]
+                    mine = {f for (_t, f, w_) in tp.values() if not w_}
+                    theirs = {f for (_t, f, w_) in tq.values() if not w_}
+                    if any(_neg_fact(f) in theirs for f in mine):
+                        continue        # the text tests further on contradict each other: different headers after all
+                    reported.add(key)
+                    r.violation(fn, fn.loc(node.ast), "whether the %s is refused (%s) or accepted (%s) is decided by the "
+                                "test `%s`, i.e. %s, where %s: the same header text parses for one file size and is "
+                                "'unparseable' for another, so a valid but unsatisfiable range (first-byte-pos at or "
+                                "beyond the end of the file) is answered 200 with the full file instead of reaching "
+                                "render's 416 test" % (what, src(fn, pn.ast), src(fn, qn.ast), src(fn, node.ast),
+                                                       " ".join(str(x) for x in (fact[1], fact[0], fact[2])),
+                                                       operands(fn, t)), w)
+                    continue
+                # a test on the text alone: it may refuse only what the grammar refuses.  The spec whose numbers are all
+                # 0 is valid in each of its three forms ('-0', '0-', '0-0'; '-0' and an empty file's '0-' are
+                # unsatisfiable, which is render's business), so an integer test must not refuse at that point.
+                try:
+                    vals = {bool(_ieval(_at_point(fn, t, 0, k))) for k in _SIZES}
+                except _NoEval:
+                    continue            # not a test on the numbers of the spec
+                if vals == {pol}:
+                    reported.add(key)
+                    via = operands(fn, t)
+                    r.violation(fn, fn.loc(node.ast), "the test `%s`, i.e. %s, refuses (%s) a %s whose numbers are all 0 "
+                                "('-0', '0-', '0-0' are valid byte-range-specs)%s: the header is treated as unparseable "
+                                "and answered 200 with the full file where RFC 7233 asks for 416 (suffix-length 0 / "
+                                "first-byte-pos at the end of an empty file are unsatisfiable, not invalid)" % (
+                                    src(fn, node.ast), " ".join(str(x) for x in (fact[1], fact[0], fact[2])),
+                                    src(fn, pn.ast), what,
+                                    (" - %s, and the size cancels out" % via) if via else ""), w)
+        # a helper that is handed a size-derived value could refuse on it out of sight
+        local_helpers = set(prh.nested) | set(pr.nested)
+        for n in fn.cfg().nodes:
+            if n.kind not in ("stmt", "test") or isinstance(n.ast, (ast.FunctionDef, ast.AsyncFunctionDef, ast.ClassDef)):
+                continue
+            for c in node_calls(n):
+                f = c.func
+                helper = (isinstance(f, ast.Name) and f.id in local_helpers) or (
+                    isinstance(f, ast.Attribute) and attr_path(f.value) == "self" and f.attr not in _SIZE_CALLS)
+                if not helper:
+                    continue
+                for a in list(c.args) + [k.value for k in c.keywords]:
+                    why = _size_derived(fn, a)
+                    if why:
+                        raise AnalysisError("C40.15: %s hands the size-derived value %s (%s) to a helper; cannot decide "
+                                            "whether the helper refuses the %s on it" % (src(fn, c), nz(a), why, what))
